@@ -1102,6 +1102,72 @@ pub fn noncanonical_packets() -> Vec<RefPacket> {
     out
 }
 
+/// Messages beyond 64 KiB: the reference encodings (plain and compressed) of the large-record
+/// packets, and messages whose sections together hold more than 65535 records (each count a
+/// legal 16-bit value).
+pub fn large_messages() -> Vec<Vec<u8>> {
+    let mut out = Vec::new();
+    for p in many_and_sized_packets() {
+        let plain = p.encode(0);
+        if plain.len() > 30000 {
+            out.push(p.encode_compressed(0, true));
+            out.push(plain);
+        }
+    }
+    for (an, ns, ar) in [(65535usize, 0usize, 1usize), (40000, 30000, 0), (30000, 30000, 30000), (65535, 65535, 65535), (1, 65535, 65535), (65535, 1, 0)] {
+        for compressed in [false, true] {
+            let mut m: Vec<u8> = vec![0x4c, 0x4d, 0x84, 0x00, 0, 1];
+            m.extend_from_slice(&(an as u16).to_be_bytes());
+            m.extend_from_slice(&(ns as u16).to_be_bytes());
+            m.extend_from_slice(&(ar as u16).to_be_bytes());
+            m.extend_from_slice(&[1, b'q', 0, 0, 1, 0, 1]);
+            for i in 0..an + ns + ar {
+                if compressed {
+                    m.extend_from_slice(&[0xc0, 12]);
+                } else {
+                    m.extend_from_slice(&[1, b'q', 0]);
+                }
+                m.extend_from_slice(&[0, 1, 0, 1]);
+                m.extend_from_slice(&(i as u32).to_be_bytes());
+                m.extend_from_slice(&[0, 4]);
+                m.extend_from_slice(&(0x0a00_0000u32 + i as u32).to_be_bytes());
+            }
+            out.push(m);
+        }
+    }
+    // the question count at its last value: 65535 questions (names in full and as pointers)
+    for compressed in [false, true] {
+        let mut m: Vec<u8> = vec![0x4c, 0x4f, 0x00, 0x00, 0xff, 0xff, 0, 1, 0, 0, 0, 0];
+        for i in 0..65535usize {
+            if compressed && i > 0 {
+                m.extend_from_slice(&[0xc0, 12]);
+            } else {
+                m.extend_from_slice(&[1, b'q', 0]);
+            }
+            m.extend_from_slice(&[0, [1u8, 28, 16, 255][i % 4], 0, 1]);
+        }
+        m.extend_from_slice(&[0xc0, 12, 0, 1, 0, 1, 0, 0, 0, 9, 0, 4, 10, 0, 0, 1]);
+        out.push(m);
+    }
+    // a full additional section whose last / first / middle entry is the OPT record
+    for opt_at in [0usize, 30000, 65534] {
+        let mut m: Vec<u8> = vec![0x4c, 0x4e, 0x84, 0x00, 0, 1, 0, 0, 0, 0, 0xff, 0xff];
+        m.extend_from_slice(&[1, b'q', 0, 0, 1, 0, 1]);
+        for i in 0..65535usize {
+            if i == opt_at {
+                m.extend_from_slice(&[0, 0, 41, 0x04, 0xd0, 0, 0, 0, 0, 0, 0]);
+                continue;
+            }
+            m.extend_from_slice(&[0xc0, 12, 0, 1, 0, 1]);
+            m.extend_from_slice(&(i as u32).to_be_bytes());
+            m.extend_from_slice(&[0, 4]);
+            m.extend_from_slice(&(0x0a00_0000u32 + i as u32).to_be_bytes());
+        }
+        out.push(m);
+    }
+    out
+}
+
 /// Every ordered pair of record types (base records, with shared names so that compression has
 /// something to do), in three section shapes; and triples (a, b, a) in one section.
 pub fn type_pair_packets() -> Vec<RefPacket> {
@@ -1163,9 +1229,29 @@ pub fn type_triple_packets() -> Vec<RefPacket> {
             for c in &base {
                 let mut p = RefPacket { id: 0x7a1c, flags: F_QR | F_AA, ..Default::default() };
                 p.questions.push(RefQ { name: a.name.clone(), qtype: 255, qclass: 1, unicast: false });
-                p.answers.push(a.clone());
-                p.answers.push(b2.clone());
-                p.answers.push(c.clone());
+                // one section, or spread over the three sections in one of three rotations
+                match (a.rdata.code() as usize + 2 * b2.rdata.code() as usize + 3 * c.rdata.code() as usize) % 4 {
+                    0 => {
+                        p.answers.push(a.clone());
+                        p.answers.push(b2.clone());
+                        p.answers.push(c.clone());
+                    }
+                    1 => {
+                        p.answers.push(a.clone());
+                        p.authority.push(b2.clone());
+                        p.additional.push(c.clone());
+                    }
+                    2 => {
+                        p.additional.push(a.clone());
+                        p.answers.push(b2.clone());
+                        p.authority.push(c.clone());
+                    }
+                    _ => {
+                        p.authority.push(a.clone());
+                        p.additional.push(b2.clone());
+                        p.additional.push(c.clone());
+                    }
+                }
                 out.push(p);
             }
         }
@@ -1541,8 +1627,29 @@ pub fn many_and_sized_packets() -> Vec<RefPacket> {
             p.answers.push(rr("big.example.com", RefRData::Typed { code: 1, vals: vec![Val::U32(0x7f000001)] }));
             p.answers.push(rr("big.example.com", rdata));
             p.additional.push(rr("after.big.example.com", RefRData::Typed { code: 5, vals: vec![Val::Name(RefName::txt("big.example.com"))] }));
+            // names that are written for the first time behind the large record and then repeated
+            // (as owner, inside RDATA followed by further fields, and as a suffix of a longer name)
+            p.additional.push(rr("late.zone.test", RefRData::Typed { code: 1, vals: vec![Val::U32(0x0a000007)] }));
+            p.additional.push(rr("late.zone.test", RefRData::Typed { code: 15, vals: vec![Val::U16(10), Val::Name(RefName::txt("mx.late.zone.test"))] }));
+            p.additional.push(RefRR { name: RefName::txt("mx.late.zone.test"), class: 1, cache_flush: false, ttl: 120, rdata: RefRData::Typed { code: 1, vals: vec![Val::U32(0x0a000008)] } });
+            p.additional.push(rr("zone.test", RefRData::Typed { code: 2, vals: vec![Val::Name(RefName::txt("late.zone.test"))] }));
             out.push(p);
         }
+    }
+    // two and three large records: names first written beyond 128 KiB and 192 KiB
+    for k in [2usize, 3] {
+        if !crate::bind::library_has_no_variant_for(65280) {
+            break;
+        }
+        let mut p = RefPacket { id: 0x5130, flags: F_QR, ..Default::default() };
+        p.questions.push(RefQ { name: RefName::txt("big.example.com"), qtype: 255, qclass: 1, unicast: false });
+        for j in 0..k {
+            p.answers.push(rr("big.example.com", RefRData::Opaque { code: 65280, data: bytes_n(65535 - j, j as u8) }));
+            p.answers.push(rr(&format!("n{}.far.test", j), RefRData::Typed { code: 1, vals: vec![Val::U32(j as u32)] }));
+            p.answers.push(rr(&format!("n{}.far.test", j), RefRData::Typed { code: 15, vals: vec![Val::U16(1), Val::Name(RefName::txt(&format!("n{}.far.test", j)))] }));
+        }
+        p.additional.push(rr("far.test", RefRData::Typed { code: 2, vals: vec![Val::Name(RefName::txt("n0.far.test"))] }));
+        out.push(p);
     }
     out
 }
